@@ -4,6 +4,7 @@ import (
 	"fmt"
 	"math"
 	"os"
+	"sort"
 	"strings"
 
 	"github.com/lindb/lindb/verif/internal/node"
@@ -55,6 +56,11 @@ type memTracker struct {
 	placeSeries map[string]map[string]map[string]bool
 	seq         int
 	events      int // writes that shrank an end offset
+	// ord: the position a contribution has among the values of its cell when lindb combines them (write order, until a
+	// compaction re-orders the merged file, see compacted); level1: table file places produced by a compaction
+	ord    map[string]int
+	ordSeq int
+	level1 map[string]bool
 }
 
 type contribMeta struct {
@@ -83,7 +89,7 @@ func newMemTracker(shards int) *memTracker {
 		sinceOpen: map[string]map[string]bool{}, fieldIdx: map[string]map[string]int{}, memIdx: map[famKey]map[int]bool{},
 		memSeries: map[string]map[string]bool{}, genFields: map[famKey]map[int]map[string]map[string]bool{},
 		placeFields: map[string]map[string]map[string]bool{}, genSeries: map[famKey]map[int]map[string]map[string]bool{},
-		placeSeries: map[string]map[string]map[string]bool{}}
+		placeSeries: map[string]map[string]map[string]bool{}, ord: map[string]int{}, level1: map[string]bool{}}
 }
 
 func contribID(batch, point int, field string) string {
@@ -156,6 +162,8 @@ func (t *memTracker) add(points []node.Point, order []int) {
 		for _, name := range names {
 			key := fmt.Sprintf("%d|%s|%s", family, sk, name)
 			id := contribID(b, i, name)
+			t.ordSeq++
+			t.ord[id] = t.ordSeq
 			t.fam[id] = fk
 			t.meta[id] = contribMeta{p.Metric, sk, slot, name}
 			if t.sinceOpen[p.Metric] == nil {
@@ -335,6 +343,14 @@ func (t *memTracker) flush(family int64, shard int) {
 func (t *memTracker) compacted(family int64, shard int) {
 	t.seq++
 	to := fmt.Sprintf("f%d", t.seq)
+	oldPlaceSeq := map[string]int{} // contribution -> number of the table file it sat in (flush order)
+	for id, pl := range t.place {
+		if strings.HasPrefix(pl, "f") {
+			var n int
+			fmt.Sscanf(pl, "f%d", &n)
+			oldPlaceSeq[id] = n
+		}
+	}
 	has := map[string]map[string]bool{} // old place -> metrics with data there
 	for id, pl := range t.place {
 		fk := t.fam[id]
@@ -357,12 +373,36 @@ func (t *memTracker) compacted(family int64, shard int) {
 		}
 		t.mergeInto(t.placeSeries, to, series)
 	}
+	// kv/compact_job.go makeInputIterator lists the level 0 files (file number order) before the overlapping level 1
+	// file and the merger applies the values of one key in that order: inside the merged file the values of the old
+	// level 1 file count as the youngest
+	var low, up []string
 	for id, pl := range t.place {
 		fk := t.fam[id]
 		if fk.family == family && fk.shard == shard && strings.HasPrefix(pl, "f") {
+			if t.level1[pl] {
+				up = append(up, id)
+			} else {
+				low = append(low, id)
+			}
 			t.place[id] = to
 		}
 	}
+	byOrd := func(ids []string, placeOf map[string]int) {
+		sort.Slice(ids, func(i, j int) bool {
+			if placeOf[ids[i]] != placeOf[ids[j]] {
+				return placeOf[ids[i]] < placeOf[ids[j]]
+			}
+			return t.ord[ids[i]] < t.ord[ids[j]]
+		})
+	}
+	byOrd(low, oldPlaceSeq)
+	byOrd(up, nil)
+	for _, id := range append(low, up...) {
+		t.ordSeq++
+		t.ord[id] = t.ordSeq
+	}
+	t.level1[to] = true
 }
 
 func (t *memTracker) hidden() map[string]bool {
@@ -622,5 +662,89 @@ func (t *memTracker) altModelDoubleRead(still map[string]string) *node.Model {
 		}
 	}
 	m.Add(extra)
+	return m
+}
+
+// altModelLevelOrder: the reference with the arrival order lindb's kv layer gives the values of one cell: at query time
+// version.FindFiles lists level 0 files (file number order) BEFORE level 1 files although a level 1 file holds the older
+// data, then come the immutable and the mutable memory database; a compaction merges in the same order (see compacted).
+// Every contribution is added as a Write call of its own in that order (only first/last fields depend on it).
+// nil if no family holds a level 1 file (the order is then the write order).
+func (t *memTracker) altModelLevelOrder(places bool) *node.Model {
+	if len(t.level1) == 0 {
+		return nil
+	}
+	type item struct {
+		id            string
+		b, i          int
+		rank, pl, ord int
+	}
+	var items []item
+	for b, points := range t.batches {
+		for i, p := range points {
+			ids := []string{}
+			for _, f := range p.Fields {
+				ids = append(ids, contribID(b, i, f.Name))
+			}
+			if p.Histogram != nil {
+				ids = append(ids, contribID(b, i, "__hist"))
+			}
+			for _, id := range ids {
+				if t.dropped[id] {
+					continue
+				}
+				pl := t.place[id]
+				it := item{id: id, b: b, i: i, ord: t.ord[id]}
+				switch {
+				case strings.HasPrefix(pl, "f") && t.level1[pl]:
+					it.rank = 1
+				case strings.HasPrefix(pl, "f"):
+					fmt.Sscanf(pl, "f%d", &it.pl)
+				default:
+					var g int
+					fmt.Sscanf(pl, "m%d/", &g)
+					it.rank, it.pl = 2, g
+				}
+				items = append(items, it)
+			}
+		}
+	}
+	sort.Slice(items, func(x, y int) bool {
+		a, b := items[x], items[y]
+		if a.rank != b.rank {
+			return a.rank < b.rank
+		}
+		if a.pl != b.pl {
+			return a.pl < b.pl
+		}
+		return a.ord < b.ord
+	})
+	m := node.NewModel(slotMs)
+	for _, it := range items {
+		p := t.batches[it.b][it.i]
+		tags := p.Tags
+		if places {
+			tags = map[string]string{"zz_place": t.place[it.id]}
+			for k, v := range p.Tags {
+				tags[k] = v
+			}
+		}
+		np := node.Point{Namespace: p.Namespace, Metric: p.Metric, Tags: tags, Timestamp: p.Timestamp}
+		if strings.HasSuffix(it.id, ".__hist") {
+			np.Histogram = p.Histogram
+		} else {
+			for _, f := range p.Fields {
+				if contribID(it.b, it.i, f.Name) == it.id {
+					np.Fields = []node.Field{f}
+				}
+			}
+		}
+		m.Add([]node.Point{np})
+	}
+	full := node.NewModel(slotMs)
+	for _, points := range t.batches {
+		full.Add(points)
+	}
+	m.InheritSchema(full)
 	return m
 }
